@@ -337,83 +337,83 @@ func runC06(c *fw.Ctx) {
 	// (and the second resolution after macro expansion) on the rendered text and compares with
 	// the reference resolver; it returns the reference state's key and whether the state is live.
 	doTransition := func(base []int, t int) (string, []int, bool) {
-			seq := append(append([]int{}, base...), t)
-			atomic.AddInt64(&transitions, 1)
-			// reference on the whole sequence with end of input
-			rs := refRun(al, seq)
-			keyBeforeEnd := rs.key(al)
-			// deep-copying the reference state is avoided by re-running it for the end
-			re := refRun(al, seq)
-			re.end(al)
-			text, offs := renderSeq(al, seq)
-			ir := implScan(text)
-			bad := ""
+		seq := append(append([]int{}, base...), t)
+		atomic.AddInt64(&transitions, 1)
+		// reference on the whole sequence with end of input
+		rs := refRun(al, seq)
+		keyBeforeEnd := rs.key(al)
+		// deep-copying the reference state is avoided by re-running it for the end
+		re := refRun(al, seq)
+		re.end(al)
+		text, offs := renderSeq(al, seq)
+		ir := implScan(text)
+		bad := ""
+		switch {
+		case ir.crash != "":
+			bad = "the library crashes instead of placing or rejecting the directive: " + ir.crash
+		case ir.rej == "other":
+			atomic.AddInt64(&otherErr, 1)
+			bad = fmt.Sprintf("unexpected diagnostic %q at %d (the rendering should be scanner-valid)", ir.msg, ir.index)
+		case re.rejected == "" && ir.rej != "":
+			bad = fmt.Sprintf("reference places every directive, the library rejects: %q at %d", ir.msg, ir.index)
+		case re.rejected != "" && ir.rej == "":
+			bad = fmt.Sprintf("reference rejects (%s at token %d), the library accepts with forest %s", re.rejected, re.rejAt, ir.tree)
+		case re.rejected != "" && re.rejected != ir.rej:
+			bad = fmt.Sprintf("reference rejects with %s, the library with %s (%q)", re.rejected, ir.rej, ir.msg)
+		case re.rejected == "ctx" && ir.index != offs[re.rejAt]:
+			bad = fmt.Sprintf("incorrect-context diagnostic at %d, the misplaced directive's keyword (token %d) is at %d", ir.index, re.rejAt, offs[re.rejAt])
+		case re.rejected == "" && ir.tree != dumpRef(al, re.roots):
+			bad = fmt.Sprintf("forest differs: library %s, reference %s", ir.tree, dumpRef(al, re.roots))
+		}
+		if bad == "" && re.rejected == "" && ir.rej == "" && !strings.Contains(" "+seqNames(al, seq)+" ", " PASTE ") {
+			// the catalog is built from a second forest, made by resolving the same
+			// sequence again after macro expansion: without a PASTE it must be the
+			// first forest minus the MACRO declarations
+			var want []string
+			for _, t := range parseForest(ir.tree) {
+				if t.kw != "MACRO" {
+					want = append(want, t.sexpr())
+				}
+			}
+			ip := implPaste(text)
+			atomic.AddInt64(&pasteForests, 1)
 			switch {
-			case ir.crash != "":
-				bad = "the library crashes instead of placing or rejecting the directive: " + ir.crash
-			case ir.rej == "other":
-				atomic.AddInt64(&otherErr, 1)
-				bad = fmt.Sprintf("unexpected diagnostic %q at %d (the rendering should be scanner-valid)", ir.msg, ir.index)
-			case re.rejected == "" && ir.rej != "":
-				bad = fmt.Sprintf("reference places every directive, the library rejects: %q at %d", ir.msg, ir.index)
-			case re.rejected != "" && ir.rej == "":
-				bad = fmt.Sprintf("reference rejects (%s at token %d), the library accepts with forest %s", re.rejected, re.rejAt, ir.tree)
-			case re.rejected != "" && re.rejected != ir.rej:
-				bad = fmt.Sprintf("reference rejects with %s, the library with %s (%q)", re.rejected, ir.rej, ir.msg)
-			case re.rejected == "ctx" && ir.index != offs[re.rejAt]:
-				bad = fmt.Sprintf("incorrect-context diagnostic at %d, the misplaced directive's keyword (token %d) is at %d", ir.index, re.rejAt, offs[re.rejAt])
-			case re.rejected == "" && ir.tree != dumpRef(al, re.roots):
-				bad = fmt.Sprintf("forest differs: library %s, reference %s", ir.tree, dumpRef(al, re.roots))
-			}
-			if bad == "" && re.rejected == "" && ir.rej == "" && !strings.Contains(" "+seqNames(al, seq)+" ", " PASTE ") {
-				// the catalog is built from a second forest, made by resolving the same
-				// sequence again after macro expansion: without a PASTE it must be the
-				// first forest minus the MACRO declarations
-				var want []string
-				for _, t := range parseForest(ir.tree) {
-					if t.kw != "MACRO" {
-						want = append(want, t.sexpr())
-					}
+			case ip.crash != "":
+				bad = "the library crashes while resolving the sequence again after macro expansion: " + ip.crash
+			case ip.rej != "":
+				if ip.rej == "ctx" {
+					bad = fmt.Sprintf("accepted by the scan phase, rejected for context when resolved again after macro expansion: %q at %d", ip.msg, ip.index)
 				}
-				ip := implPaste(text)
-				atomic.AddInt64(&pasteForests, 1)
-				switch {
-				case ip.crash != "":
-					bad = "the library crashes while resolving the sequence again after macro expansion: " + ip.crash
-				case ip.rej != "":
-					if ip.rej == "ctx" {
-						bad = fmt.Sprintf("accepted by the scan phase, rejected for context when resolved again after macro expansion: %q at %d", ip.msg, ip.index)
-					}
-				case ip.tree != strings.Join(want, " "):
-					bad = fmt.Sprintf("second forest (after macro expansion) differs from the first: %s vs %s", ip.tree, strings.Join(want, " "))
-				}
+			case ip.tree != strings.Join(want, " "):
+				bad = fmt.Sprintf("second forest (after macro expansion) differs from the first: %s vs %s", ip.tree, strings.Join(want, " "))
 			}
-			if re.rejected == "" && ir.rej == "" {
-				atomic.AddInt64(&accepted, 1)
-				if len(seq) >= 2 {
-					atomic.AddInt64(&nontrivial, 1)
-				}
-			}
-			if re.rejected == "ctx" {
-				atomic.AddInt64(&ctxRej, 1)
+		}
+		if re.rejected == "" && ir.rej == "" {
+			atomic.AddInt64(&accepted, 1)
+			if len(seq) >= 2 {
 				atomic.AddInt64(&nontrivial, 1)
 			}
-			if bad != "" {
-				atomic.AddInt64(&mism, 1)
-				sig := "C06:" + ctxSig(al, seq, re, ir)
-				vmu.Lock()
-				sigCount[sig]++
-				n := sigCount[sig]
-				vmu.Unlock()
-				if n <= 2 {
-					// deterministic? run again
-					ir2 := implScan(text)
-					if ir2.tree == ir.tree && ir2.rej == ir.rej && ir2.index == ir.index {
-						c.Violate("context-resolution", sig, fmt.Sprintf("sequence [%s]: %s", seqNames(al, seq), bad), map[string]interface{}{"sequence": seqNames(al, seq), "text": text})
-					}
+		}
+		if re.rejected == "ctx" {
+			atomic.AddInt64(&ctxRej, 1)
+			atomic.AddInt64(&nontrivial, 1)
+		}
+		if bad != "" {
+			atomic.AddInt64(&mism, 1)
+			sig := "C06:" + ctxSig(al, seq, re, ir)
+			vmu.Lock()
+			sigCount[sig]++
+			n := sigCount[sig]
+			vmu.Unlock()
+			if n <= 2 {
+				// deterministic? run again
+				ir2 := implScan(text)
+				if ir2.tree == ir.tree && ir2.rej == ir.rej && ir2.index == ir.index {
+					c.Violate("context-resolution", sig, fmt.Sprintf("sequence [%s]: %s", seqNames(al, seq), bad), map[string]interface{}{"sequence": seqNames(al, seq), "text": text})
 				}
 			}
-			return keyBeforeEnd, seq, rs.rejected == ""
+		}
+		return keyBeforeEnd, seq, rs.rejected == ""
 	}
 	for len(frontier) > 0 {
 		if c.Expired() {
